@@ -526,6 +526,13 @@ func ruleC03R4(w *World, r *Report) {
 				where = w.pos(fn.Pos())
 			}
 			v := w.checkLoop(l)
+			if !v.ok && fn.Signature.Recv() != nil && w.isLexerPtr(fn.Signature.Recv().Type()) {
+				// a loop of the byte-level code whose progress is not visible as an event (it is reported by a callee's
+				// flag, say): the strict-progress proof of C03/R7 in the linear domain decides
+				if found, proved := w.lexLoopProgress(fn, l.header); found && proved {
+					v = loopVerdict{true, "cursor", "on every back edge Lexer.pos is at least one byte further than at the start of the iteration (proved in the linear domain, C03/R7)"}
+				}
+			}
 			if v.ok {
 				r.ok(rule, construct, where, v.how+": "+v.detail)
 			} else {
